@@ -15,7 +15,7 @@ BUDGET = {"quick": 55, "thorough": 900}
 QUICK_CASES = 1200
 FLOOR = {"quick": 500, "thorough": 500}  # conclusive cases below which a run is inconclusive (the thorough tier is time-budgeted: same floor)
 TIMEOUT = 120
-REQUIRED_OBS = ["programs", "files", "import_edges", "cross_context_calls", "raising_cross_calls", "callbacks_into_caller_file", "entries_run", "entries_via_trigger", "entries_via_service", "entries_via_task", "global_tables_compared", "module_singleton_checks", "jupyter_contexts", "star_imports", "relative_imports", "sibling_relative_imports", "scoped_functions", "scoped_calls", "expression_triggers", "foreign_decorated_triggers", "expression_trigger_runs"]
+REQUIRED_OBS = ["programs", "files", "import_edges", "cross_context_calls", "raising_cross_calls", "callbacks_into_caller_file", "entries_run", "entries_via_trigger", "entries_via_service", "entries_via_task", "global_tables_compared", "module_singleton_checks", "jupyter_contexts", "star_imports", "relative_imports", "sibling_relative_imports", "level2_relative_imports", "scoped_functions", "scoped_calls", "expression_triggers", "foreign_decorated_triggers", "expression_trigger_runs"]
 RULE = (
     "generated sets of 3-7 files (top-level scripts, scripts/, a single-file app, an app package with a sibling, modules, a module "
     "package with a sibling, and a Jupyter-style session context) that all define the same global names (NAME, X, L, R, get, bump, apply, "
@@ -63,9 +63,11 @@ FILES = {
     "pk": ("modules/pk/__init__.py", "pk", "modules.pk"),
     "pks": ("modules/pk/sub.py", "pk.sub", "modules.pk.sub"),
     "pko": ("modules/pk/other.py", "pk.other", "modules.pk.other"),
+    "pki": ("modules/pk/inner/__init__.py", "pk.inner", "modules.pk.inner"),
+    "pkd": ("modules/pk/inner/deep.py", "pk.inner.deep", "modules.pk.inner.deep"),
     "jup": (None, "jupyter_0", "jupyter_0"),
 }
-MODULE_IDS = ["mo2", "mo1", "pko", "pks", "pk"]  # import order constraint: a module may import those to its left
+MODULE_IDS = ["mo2", "mo1", "pko", "pkd", "pki", "pks", "pk"]  # import order constraint: a module may import those to its left
 LOADERS = ["ap1", "ap2", "fa", "fb", "sc"]  # pyscript's load order (sorted context names)
 
 TEMPLATE = '''
@@ -131,13 +133,16 @@ def deco(fn):
 class ProgGen:
     def __init__(self, rng):
         self.r = rng
-        self.stats = {"import_edges": 0, "cross_context_calls": 0, "raising_cross_calls": 0, "callbacks_into_caller_file": 0, "star_imports": 0, "relative_imports": 0, "sibling_relative_imports": 0, "scoped_functions": 0, "scoped_calls": 0, "expression_triggers": 0, "foreign_decorated_triggers": 0}
+        self.stats = {"import_edges": 0, "cross_context_calls": 0, "raising_cross_calls": 0, "callbacks_into_caller_file": 0, "star_imports": 0, "relative_imports": 0, "sibling_relative_imports": 0, "level2_relative_imports": 0, "scoped_functions": 0, "scoped_calls": 0, "expression_triggers": 0, "foreign_decorated_triggers": 0}
 
     def pick_files(self):
         r = self.r
         mods = [m for m in ("mo1", "mo2") if r.random() < 0.8]
         if r.random() < 0.5:
             mods += ["pk", "pks"] + (["pko"] if r.random() < 0.6 else [])
+            if "pko" in mods and r.random() < 0.5:
+                # a sub-package whose module reaches the package's sibling through a level-2 relative import
+                mods += ["pki", "pkd"]
         if not mods:
             mods = ["mo1"]
         loaders = [f for f in LOADERS if r.random() < 0.45]
@@ -168,10 +173,10 @@ class ProgGen:
             allowed = MODULE_IDS[: MODULE_IDS.index(fid)]
             if fid == "pk":
                 allowed = ["mo2", "mo1"]  # .sub comes through the relative import
-            if fid in ("pks", "pko"):
+            if fid in ("pks", "pko", "pki", "pkd"):
                 allowed = ["mo2", "mo1"]
             return [m for m in allowed if m in mods]
-        return [m for m in mods if m not in ("pks", "pko")]
+        return [m for m in mods if m not in ("pks", "pko", "pki", "pkd")]
 
     def file_source(self, fid, mods):
         r = self.r
@@ -205,6 +210,27 @@ class ProgGen:
                 self.stats["relative_imports"] += 1
                 self.stats["sibling_relative_imports"] += 1
                 self.stats["import_edges"] += 1
+        if fid == "pk" and "pki" in self.present:
+            place("from . import inner as sib_inner")
+            env["mods"]["sib_inner"] = "pki"
+            self.stats["relative_imports"] += 1
+            self.stats["import_edges"] += 1
+        if fid == "pki":
+            place("from . import deep as sib_deep")
+            env["mods"]["sib_deep"] = "pkd"
+            self.stats["relative_imports"] += 1
+            self.stats["import_edges"] += 1
+        if fid == "pkd":
+            if r.random() < 0.5:
+                place("from .. import other as up_other")
+                env["mods"]["up_other"] = "pko"
+            else:
+                place("from ..other import get as get_up, bump as bump_up")
+                env["fns"]["get_up"] = ("pko", "get")
+                env["fns"]["bump_up"] = ("pko", "bump")
+            self.stats["relative_imports"] += 1
+            self.stats["level2_relative_imports"] += 1
+            self.stats["import_edges"] += 1
         if fid == "ap2":
             if r.random() < 0.5:
                 place("from . import util")
@@ -244,7 +270,7 @@ class ProgGen:
                 else:
                     place(f"import {pyname}")
                     env["mods"][pyname] = m
-        base = {"fa": 10, "fb": 20, "sc": 30, "ap1": 40, "ap2": 50, "ap2u": 60, "mo1": 100, "mo2": 200, "pk": 300, "pks": 400, "jup": 500, "ap2o": 70, "pko": 450}[fid]
+        base = {"fa": 10, "fb": 20, "sc": 30, "ap1": 40, "ap2": 50, "ap2u": 60, "mo1": 100, "mo2": 200, "pk": 300, "pks": 400, "jup": 500, "ap2o": 70, "pko": 450, "pki": 600, "pkd": 700}[fid]
         lines = [f"vf.rec('load', name=__name__, file={fid!r})"]
         lines += imps["top"]
         lines += [f"NAME = {fid!r}", f"X = {base}", f"LIMIT = {base}", "L = []", "R = []", f"ONLY_{fid} = {base + 1}"]
@@ -264,7 +290,7 @@ class ProgGen:
         for _ in range(r.randint(0, 5)):
             lines += self.statement(fid, "")
         # entries
-        n_entries = r.randint(1, 3) if fid not in ("ap2u", "pks", "ap2o", "pko") else r.randint(0, 1)
+        n_entries = r.randint(1, 3) if fid not in ("ap2u", "pks", "ap2o", "pko", "pki", "pkd") else r.randint(0, 1)
         self.entries[fid] = []
         for i in range(n_entries):
             kind = r.choice(["trigger", "service", "task"]) if fid != "jup" else "direct"
